@@ -253,6 +253,113 @@ def sp_reach_sym(interp, st, args, kwargs, node):
     return z3.ForAll([s0, s1, v0, v1], reach(st, m, (s0, s1), (v0, v1)) == reach(st, m, (v0, v1), (s0, s1)))
 
 
+
+_DIST = None
+
+
+def _bfs_all(conn):
+    """concrete reading of dist: breadth-first distances between all pairs of cells (independent of the code under check)"""
+    _, R, C = conn.shape
+    out = {}
+    for r0 in range(R):
+        for c0 in range(C):
+            d = {(r0, c0): 0}
+            todo = [(r0, c0)]
+            while todo:
+                nxt = []
+                for r, c in todo:
+                    nbrs = []
+                    if r + 1 < R and conn[0, r, c]:
+                        nbrs.append((r + 1, c))
+                    if r - 1 >= 0 and conn[0, r - 1, c]:
+                        nbrs.append((r - 1, c))
+                    if c + 1 < C and conn[1, r, c]:
+                        nbrs.append((r, c + 1))
+                    if c - 1 >= 0 and conn[1, r, c - 1]:
+                        nbrs.append((r, c - 1))
+                    for n in nbrs:
+                        if n not in d:
+                            d[n] = d[(r, c)] + 1
+                            nxt.append(n)
+                todo = nxt
+            out[(r0, c0)] = d
+    return out
+
+
+def dist(st, m, s, v):
+    """dist(m, s, v): the number of steps of a shortest path from s to v along edges of m (meaningful when reach(m, s, v)).
+    Symbolic reading: uninterpreted, with the defining facts of graph distance (0 at the source, never negative, at most one more
+    across an edge); minimality over all paths is used only through the lemma `astar_cut`.  Concrete reading: breadth-first search."""
+    g = _conn(m)
+    D, R, C = g.dims
+    s0, s1 = _coord(s)
+    v0, v1 = _coord(v)
+    if getattr(g, "concrete", None) is not None:
+        table = _bfs_all(g.concrete)
+        if not any(is_sym(x) for x in (s0, s1, v0, v1)):
+            return table.get((int(s0), int(s1)), {}).get((int(v0), int(v1)), -1)
+        out = -1
+        for (a, b), dd in table.items():
+            for (p, q), k in dd.items():
+                out = V.ite(b_and(M.s_cmp(ast.Eq(), s0, a), M.s_cmp(ast.Eq(), s1, b), M.s_cmp(ast.Eq(), v0, p), M.s_cmp(ast.Eq(), v1, q)), k, out)
+        return out
+    global _DIST
+    if _DIST is None:
+        _DIST = z3.Function("dist", g.arr.sort(), z3.IntSort(), z3.IntSort(), z3.IntSort(), z3.IntSort(), z3.IntSort(), z3.IntSort(), z3.IntSort())
+    f = _DIST
+    # make sure reach() has named the array and added its axioms first (dist shares the name)
+    reach(st, m, s, v)
+    names = st.env.get("__names__", {})
+    arr = names.get(g.arr.get_id(), g.arr)
+    gm = Rec("LatticeMaze", {"connection_list": Grid(g.dims, arr, g.kind, g.count, g.dtype)})
+    dd = lambda a, b, c, d: f(arr, to_z3(R), to_z3(C), a, b, c, d)
+    key = ("dist", arr.get_id(), to_z3(R).get_id(), to_z3(C).get_id())
+    seen = st.env.get("__axioms__", frozenset())
+    if key not in seen:
+        st.env["__axioms__"] = seen | {key}
+        LEMMAS_USED.add("dist: graph distance is 0 at the source, non-negative, and grows by at most 1 across an edge (definition of shortest-path length; concrete reading = BFS)")
+        a0, a1, u0, u1, w0, w1 = [z3.Int(V.fresh_name(n)) for n in ("a0", "a1", "u0", "u1", "w0", "w1")]
+        ax = [
+            z3.ForAll([a0, a1], dd(a0, a1, a0, a1) == 0, patterns=[dd(a0, a1, a0, a1)]),
+            z3.ForAll([a0, a1, u0, u1], dd(a0, a1, u0, u1) >= 0, patterns=[dd(a0, a1, u0, u1)]),
+            z3.ForAll(
+                [a0, a1, u0, u1, w0, w1],
+                z3.Implies(z3.And(reach(st, gm, (a0, a1), (u0, u1)), to_z3(edge(gm, (u0, u1), (w0, w1)))), dd(a0, a1, w0, w1) <= dd(a0, a1, u0, u1) + 1),
+                patterns=[z3.MultiPattern(dd(a0, a1, u0, u1), dd(a0, a1, w0, w1))],
+            ),
+        ]
+        for a_ in ax:
+            st.pc.append(a_)
+            st.tagmap[a_.get_id()] = "axiom:dist"
+    return f(arr, to_z3(R), to_z3(C), to_z3(s0), to_z3(s1), to_z3(v0), to_z3(v1))
+
+
+def sp_dist(interp, st, args, kwargs, node):
+    return dist(st, args[0], args[1], args[2])
+
+
+def sp_astar_cut(interp, st, args, kwargs, node):
+    """LEMMA (code-independent; shortest paths leave a set through a tight edge, and the Manhattan heuristic is consistent along them):
+    if S contains the source s, v is reachable from s and v is not in S, then some edge (y, z) with y in S, z not in S lies on a
+    shortest path from s to v: dist(s,z) = dist(s,y) + 1 and dist(s,z) + |z - e|_1 <= dist(s,v) + |v - e|_1 for every target e."""
+    LEMMAS_USED.add("astar_cut: a shortest path from s to v leaves any set S (s in S, v not in S) through an edge (y,z) with dist(z)=dist(y)+1 and "
+                    "dist(z)+manhattan(z,e) <= dist(v)+manhattan(v,e) (textbook; validated concretely on small graphs, not machine-checked)")
+    m, s, e, S, v = args
+    y0, y1, z0, z1 = [z3.Int(V.fresh_name(n)) for n in ("y0", "y1", "z0", "z1")]
+    e0, e1 = _coord(e)
+    v0, v1 = _coord(v)
+    man = lambda a, b: M.s_add(M.s_abs(M.s_sub(a, e0)), M.s_abs(M.s_sub(b, e1)))
+    prem = z3.And(to_z3(_call_pred(interp, st, S, [(_coord(s)[0], _coord(s)[1])])), to_z3(reach(st, m, s, v)), z3.Not(to_z3(_call_pred(interp, st, S, [(v0, v1)]))))
+    body = z3.And(
+        to_z3(_call_pred(interp, st, S, [(y0, y1)])),
+        z3.Not(to_z3(_call_pred(interp, st, S, [(z0, z1)]))),
+        to_z3(reach(st, m, s, (y0, y1))),
+        to_z3(edge(m, (y0, y1), (z0, z1))),
+        to_z3(dist(st, m, s, (z0, z1))) == to_z3(dist(st, m, s, (y0, y1))) + 1,
+        to_z3(dist(st, m, s, (z0, z1))) + to_z3(man(z0, z1)) <= to_z3(dist(st, m, s, v)) + to_z3(man(v0, v1)),
+    )
+    return z3.Implies(prem, z3.Exists([y0, y1, z0, z1], body))
+
 def sp_forall(interp, st, args, kwargs, node, exists=False):
     clo = args[0]
     ranges = args[1:]
@@ -488,6 +595,8 @@ SPEC_FUNCTIONS = {
     "lat_adj": sp_lat_adj,
     "edge": sp_edge,
     "reach": sp_reach,
+    "dist": sp_dist,
+    "astar_cut": sp_astar_cut,
     "reach_induction": sp_reach_induction,
     "reach_mono": sp_reach_mono,
     "reach_sym": sp_reach_sym,
